@@ -268,6 +268,7 @@ func checkC12(c *Ctx) {
 
 	// ---- C12-RING: the lexer's look-back ring (it decides whether +/- continues a float exponent)
 	c.checkLookbackRing("C12-RING")
+	c.checkCommentAutomaton("C12-CMT")
 
 	// ---- C12-FLUSH
 	if lexerT := c.named("Lexer"); lexerT != nil {
